@@ -58,4 +58,47 @@ NpgVar(s, ddof, skipna) ==
   LET t == ShiftByFirst(s)
       u == IF skipna THEN DropNaN(t) ELSE t
   IN IF u = <<>> THEN NaN ELSE Var(u, ddof)
+
+(***************************************************************************)
+(* aggregate_flox.quantile_ : vectorised grouped quantile.                  *)
+(* The complex-number partition sorts by (label, value) and sends every     *)
+(* NaN-valued element to the END of the whole array, so the valid members   *)
+(* of the groups are contiguous, group after group, and the start of group  *)
+(* j is the cumulative count of VALID members of the groups before it.      *)
+(*   vals, codes : the (unsorted) 1-D problem, codes 0..ngroups-1           *)
+(*   MaskAllNaN  : TRUE models a kernel that answers NaN for a group with   *)
+(*                 no valid member; FALSE is the literal index arithmetic   *)
+(*                 (virtual index q*(0-1)+offset points before the group:   *)
+(*                 the defect D5, a neighbour's value is returned)          *)
+(***************************************************************************)
+ValLt(a, b) == Lt(a, b)
+SortedValid(vals, codes, g) == SortBy(ValLt, DropNaN(Members(vals, codes, g)))
+RECURSIVE PartitionedValid(_, _, _)
+PartitionedValid(vals, codes, n) ==
+  IF n = 0 THEN <<>> ELSE PartitionedValid(vals, codes, n - 1) \o SortedValid(vals, codes, n - 1)
+\* the array after cmplx.partition: valid members group by group, then the NaNs
+Partitioned(vals, codes, ngroups) ==
+  PartitionedValid(vals, codes, ngroups) \o [i \in 1..(Len(vals) - Len(PartitionedValid(vals, codes, ngroups))) |-> NaN]
+
+RECURSIVE ValidBefore(_, _, _)
+ValidBefore(vals, codes, g) == IF g = 0 THEN 0 ELSE ValidBefore(vals, codes, g - 1) + CountNotNull(Members(vals, codes, g - 1))
+
+\* numpy take with a possibly negative index (wraps from the end)
+TakeWrap(a, i0) == IF i0 >= 0 THEN a[i0 + 1] ELSE a[Len(a) + i0 + 1]
+
+QuantileFlox(vals, codes, ngroups, g, q, skipna, MaskAllNaN) ==
+  LET mem == Members(vals, codes, g)
+      nvalid == CountNotNull(mem)
+      a == Partitioned(vals, codes, ngroups)
+      vi == Add(Mul(q, I(nvalid - 1)), I(ValidBefore(vals, codes, g)))   \* virtual index
+      lo == vi[1] \div vi[2]                                           \* floor (also of negatives)
+      hi == IF vi[1] % vi[2] = 0 THEN lo ELSE lo + 1
+      gamma == Sub(vi, I(lo))
+      loval == TakeWrap(a, lo)
+      hival == TakeWrap(a, hi)
+      lerp == Add(loval, Mul(Sub(hival, loval), gamma))
+  IN IF mem = <<>> THEN NaN                          \* absent group: the fill
+     ELSE IF ~skipna /\ nvalid # Len(mem) THEN NaN    \* nanmask
+     ELSE IF MaskAllNaN /\ nvalid = 0 THEN NaN
+     ELSE lerp
 =============================================================================
